@@ -340,6 +340,8 @@ type nodeSim struct {
 	serialNo   int
 
 	retryEvery time.Duration
+	raceHeld   map[*simk.Task]int
+	finishing  bool
 	raceBurst  bool
 	noReportJudge bool
 	dst        *dtlsrState
@@ -467,6 +469,17 @@ func (n *nodeSim) settle() {
 				n.sched.Release(t, nil)
 			}
 			continue
+		}
+		if n.raceBurst && len(parked) == 1 && n.core != nil && !n.finishing {
+			// hold a lone task for a few rounds: another task (a cron job of a later tick, the next
+			// injected event) should park as well before both are released together
+			if n.raceHeld == nil {
+				n.raceHeld = map[*simk.Task]int{}
+			}
+			if n.raceHeld[parked[0]] < 3 {
+				n.raceHeld[parked[0]]++
+				return
+			}
 		}
 		if n.raceBurst && len(parked) > 1 {
 			// race-detector windows (C19 crash clause): release everything that is parked in one go, so that
@@ -878,8 +891,12 @@ func (n *nodeSim) body() {
 		n.exec(op)
 		n.checkSettled("op " + strconv.Itoa(i))
 	}
+	n.finishing = true
 	if !n.aborted {
 		n.finale()
+	}
+	if n.raceBurst {
+		n.res.Violations = nil // race-detector runs are judged by the detector alone
 	}
 	n.res.SimMs = int64(time.Since(n.simT0) / time.Millisecond)
 	n.sched.SetFree(true)
@@ -1130,6 +1147,11 @@ func (n *nodeSim) opRestart(down time.Duration) {
 		return
 	}
 	n.res.Fault("restart")
+	if n.raceBurst {
+		n.finishing = true
+		n.settle()
+		n.finishing = false
+	}
 	for _, tr := range n.tracks {
 		if n.isRetained(tr) {
 			n.res.Probe("restart_with_retained_bundle")
